@@ -12,9 +12,11 @@ class PathDumper(FileDumper):
         PathDumper.__makedirs(self.out_path)
 
     def write_file_to_output(self, filename, path):
+        # Only data files whose path embeds their hash are content-addressed
+        content_addressed = self.add_filehash_to_path and self.resource_hash and path != 'datapackage.json'
         path = os.path.join(self.out_path, path)
         # Avoid rewriting existing files
-        if self.add_filehash_to_path and os.path.exists(path):
+        if content_addressed and os.path.exists(path):
             return
         path_part = os.path.dirname(path)
         PathDumper.__makedirs(path_part)
